@@ -14,6 +14,7 @@
     permuted results (`perm_of_expected`).
 -/
 import SSJ.Proofs.EntryGeneric
+import SSJ.Proofs.BodyOK
 import SSJ.Proofs.EntryExact
 import SSJ.Proofs.EntryED
 import Mathlib.Data.List.Forall2
@@ -586,7 +587,7 @@ theorem mem_payload_iff {oss : Bool} {work : Work} (hwf : WorkFaithful oss work)
     (hfun : ∀ lv rv s s', P lv rv s → P lv rv s' → s = s')
     (hkl : validateKeyAttr a.lKey l = .ok ()) (hkr : validateKeyAttr a.rKey r = .ok ()) (x : Row) :
     x ∈ fr.rows.map (fun row => row.drop 1) ↔ Expected a l r am oss P x := by
-  obtain ⟨fr0, hfr0, _, hrows⟩ := RT.run_ok hwf a l r am a.nJobs cpu
+  obtain ⟨fr0, hfr0, _, hrows⟩ := RT.run_ok hwf a l r am a.nJobs cpu (runTables_bodyOK _ _ _ _ _ _ _ _ hrun)
   rw [TableArgs.withJobs_self, hrun] at hfr0
   cases hfr0
   have hpay : fr.rows.map (fun row => row.drop 1) =
@@ -656,6 +657,19 @@ structure RowsPermuted (l r l' r' : Frame) : Prop where
 theorem RowsPermuted.vsame {l r l' r' : Frame} (h : RowsPermuted l r l' r') (a : TableArgs) : VSame a l r l' r' :=
   vsame_of_perm a l r l' r' h.lCols h.lTypes h.lRows h.rCols h.rTypes h.rRows
 
+theorem strColumn_of_perm (f g : Frame) (attr : String) (hc : g.columns = f.columns) (hp : g.rows.Perm f.rows)
+    (h : Props.StrColumn f attr) : Props.StrColumn g attr := by
+  intro s hs
+  have := h s (hp.subset hs)
+  unfold Props.valOf Frame.colIdx at this ⊢
+  rw [hc]; exact this
+
+/-- the body conditions do not depend on the order of the rows -/
+theorem RowsPermuted.bodyOK {l r l' r' : Frame} (h : RowsPermuted l r l' r') (a : TableArgs) (oss : Bool)
+    (hb : Props.BodyOK a l r oss) : Props.BodyOK (a.withTables l' r') l' r' oss :=
+  ⟨strColumn_of_perm l l' a.lAttr h.lCols h.lRows hb.lstr, strColumn_of_perm r r' a.rAttr h.rCols h.rRows hb.rstr,
+    hb.noClash⟩
+
 end PermHyps
 
 theorem tables_of_validateTablesAttrs (a : TableArgs) (l r : Frame) (hv : validateTablesAttrs a = .ok (l, r)) :
@@ -674,7 +688,7 @@ theorem POvc_fun (thr : PyV) (op : String) (ae : Bool) (tok : String → List To
 theorem overlapFilterTables_perm (f : OverlapFilterObj) (a : TableArgs) (oss : Bool) (tok : String → List Tok)
     (cpu cpu' : Int) (l r l' r' : Frame) (hnd : ∀ s, (tok s).Nodup)
     (hv : validateTablesAttrs a = .ok (l, r)) (hk : validateOutAndKeys a l r = .ok ())
-    (hlen : r.rows.length < 2 ^ 40) (hp : RowsPermuted l r l' r') :
+    (hlen : r.rows.length < 2 ^ 40) (hp : RowsPermuted l r l' r') (hb : Props.BodyOK a l r oss) :
     ∃ fr fr', overlapFilterTables f a oss tok cpu = .ok fr ∧
       overlapFilterTables f (a.withTables l' r') oss tok cpu' = .ok fr' ∧
       fr.columns = fr'.columns ∧
@@ -686,8 +700,9 @@ theorem overlapFilterTables_perm (f : OverlapFilterObj) (a : TableArgs) (oss : B
   have hk' : validateOutAndKeys (a.withTables l' r') l' r' = .ok () := by
     rw [validateOutAndKeys_vsame a l r l' r' hvs, hk]
   have hlen' : r'.rows.length < 2 ^ 40 := by rw [hp.rRows.length_eq]; exact hlen
-  obtain ⟨fr, hfr, hd⟩ := EX.overlapFilterTables_described f a oss tok cpu l r hnd hv hk hlen
+  obtain ⟨fr, hfr, hd⟩ := EX.overlapFilterTables_described f a oss tok cpu l r hnd hv hk hlen hb
   obtain ⟨fr', hfr', hd'⟩ := EX.overlapFilterTables_described f (a.withTables l' r') oss tok cpu' l' r' hnd hv' hk' hlen'
+    (hp.bodyOK a oss hb)
   obtain ⟨hkl, hkr⟩ := validateOutAndKeys_keys a l r hk
   obtain ⟨hkl', hkr'⟩ := validateOutAndKeys_keys (a.withTables l' r') l' r' hk'
   have hrun : runTables a l r f.allowMissing oss cpu (Work.overlap f oss tok) = .ok fr := by
@@ -707,7 +722,7 @@ theorem overlapJoinPy_perm (a : JoinArgs) (t : TokObj) (toks : TokFn) (cpu cpu' 
     (l r l' r' : Frame) (hnd : ∀ s, (toks true s).Nodup)
     (hf : mkOverlapFilter a.threshold a.compOp a.allowMissing t = .ok f)
     (hv : validateTablesAttrs a.toTableArgs = .ok (l, r)) (hk : validateOutAndKeys a.toTableArgs l r = .ok ())
-    (hlen : r.rows.length < 2 ^ 40) (hp : RowsPermuted l r l' r') :
+    (hlen : r.rows.length < 2 ^ 40) (hp : RowsPermuted l r l' r') (hb : Props.BodyOK a.toTableArgs l r a.outSimScore) :
     ∃ fr fr', (overlapJoinPy a t toks cpu).result = .ok fr ∧
       (overlapJoinPy (a.withTables l' r') t toks cpu').result = .ok fr' ∧
       fr.columns = fr'.columns ∧
@@ -720,13 +735,13 @@ theorem overlapJoinPy_perm (a : JoinArgs) (t : TokObj) (toks : TokFn) (cpu cpu' 
     show (mkOverlapFilter a.threshold a.compOp a.allowMissing t >>= _) = _
     rw [hf]; rfl
   rw [e, e']
-  exact overlapFilterTables_perm f a.toTableArgs a.outSimScore (toks true) cpu cpu' l r l' r' hnd hv hk hlen hp
+  exact overlapFilterTables_perm f a.toTableArgs a.outSimScore (toks true) cpu cpu' l r l' r' hnd hv hk hlen hp hb
 
 /-- `overlap_coefficient_join_py` on row-permuted tables -/
 theorem overlapCoefficientJoinPy_perm (a : JoinArgs) (t : TokObj) (toks : TokFn) (cpu cpu' : Int)
     (l r l' r' : Frame) (hnd : ∀ s, (toks true s).Nodup)
     (hv : validateJoin "OVERLAP_COEFFICIENT" a t = .ok (l, r))
-    (hlen : r.rows.length < 2 ^ 40) (hp : RowsPermuted l r l' r') :
+    (hlen : r.rows.length < 2 ^ 40) (hp : RowsPermuted l r l' r') (hb : Props.BodyOK a.toTableArgs l r a.outSimScore) :
     ∃ fr fr', (overlapCoefficientJoinPy a t toks cpu).result = .ok fr ∧
       (overlapCoefficientJoinPy (a.withTables l' r') t toks cpu').result = .ok fr' ∧
       fr.columns = fr'.columns ∧
@@ -736,8 +751,9 @@ theorem overlapCoefficientJoinPy_perm (a : JoinArgs) (t : TokObj) (toks : TokFn)
   have hv' : validateJoin "OVERLAP_COEFFICIENT" (a.withTables l' r') t = .ok (l', r') := by
     rw [validateJoin_vsame _ a t l r l' r' hl hr (hp.vsame _), hv]; rfl
   have hlen' : r'.rows.length < 2 ^ 40 := by rw [hp.rRows.length_eq]; exact hlen
-  obtain ⟨fr, hfr, hd⟩ := EX.overlapCoefficientJoinPy_described a t toks cpu l r hnd hv hlen
+  obtain ⟨fr, hfr, hd⟩ := EX.overlapCoefficientJoinPy_described a t toks cpu l r hnd hv hlen hb
   obtain ⟨fr', hfr', hd'⟩ := EX.overlapCoefficientJoinPy_described (a.withTables l' r') t toks cpu' l' r' hnd hv' hlen'
+    (hp.bodyOK a.toTableArgs a.outSimScore hb)
   obtain ⟨hkl, hkr⟩ := validateOutAndKeys_of_validateJoin _ a t l r hv
   obtain ⟨hkl', hkr'⟩ := validateOutAndKeys_of_validateJoin _ (a.withTables l' r') t l' r' hv'
   have hrun := (overlapCoefficientJoinPy_eq a t toks cpu l r hv).symm.trans hfr
@@ -808,7 +824,7 @@ theorem editDistanceJoinPy_perm (a : JoinArgs) (t : TokObj) (toks : TokFn) (cpu 
     (tau : Int) (hv : validateJoin "EDIT_DISTANCE" a t = .ok (l, r))
     (htau : PyV.toInt (PyV.floor a.threshold) = .int tau) (hrows : r.rows.length < 2 ^ 40) (hq0 : 0 ≤ t.qval)
     (hcount : ∀ s s' : String, ((toks false s).diff (toks false s')).length ≤ t.qval.toNat * lev s s')
-    (hp : RowsPermuted l r l' r') :
+    (hp : RowsPermuted l r l' r') (hb : Props.BodyOK a.toTableArgs l r a.outSimScore) :
     ∃ fr fr', (editDistanceJoinPy a t toks cpu).result = .ok fr ∧
       (editDistanceJoinPy (a.withTables l' r') t toks cpu').result = .ok fr' ∧
       fr.columns = fr'.columns ∧
@@ -819,8 +835,9 @@ theorem editDistanceJoinPy_perm (a : JoinArgs) (t : TokObj) (toks : TokFn) (cpu 
     rw [validateJoin_vsame _ a t l r l' r' hl hr (hp.vsame _), hv]; rfl
   have hrows' : r'.rows.length < 2 ^ 40 := by rw [hp.rRows.length_eq]; exact hrows
   have htau' : PyV.toInt (PyV.floor (a.withTables l' r').threshold) = .int tau := htau
-  obtain ⟨fr, hfr⟩ := EntryED.total a t toks cpu l r tau hv htau
+  obtain ⟨fr, hfr⟩ := EntryED.total a t toks cpu l r tau hv htau hb
   obtain ⟨fr', hfr'⟩ := EntryED.total (a.withTables l' r') t toks cpu' l' r' tau hv' htau'
+    (hp.bodyOK a.toTableArgs a.outSimScore hb)
   have hmem := ed_mem_payload_iff a t toks cpu l r tau fr hv htau hrows hfr hq0 hcount
   have hmem' := ed_mem_payload_iff (a.withTables l' r') t toks cpu' l' r' tau fr' hv' htau' hrows' hfr' hq0 hcount
   have hrun := (EntryED.result_eq a t toks cpu l r tau hv htau).symm.trans hfr
